@@ -26,8 +26,8 @@ CHECKS = {
  "C06": ("exploration", E1 + ": operator sequences x bracketings x blank layouts vs the documented precedence table",
          "All operator sequences up to length 5 over + - * / ^ with every bracketing (Catalan), minimal and full parentheses, redundant parentheses, function-argument position, `to` chains, and blank layouts (all combinations of homogeneous gaps for <=2 operators, uniform + 1/2-slot deviations beyond, deviations including gaps that mix spaces and tabs) are evaluated and compared with the reference evaluation of the tree the documented grammar prescribes.",
          "Trees outside the statement's domain (non-integer or >1000 exponents) are counted, not judged; + - and `to` keep >=1 blank as the statement says.", "3 C06"),
- "C07": ("exploration", E1 + ": the literal grammar up to length 7/8 plus a size ladder vs an own decimal reader",
-         "Every literal of the grammar up to length 7 (thorough 8) over a reduced digit alphabet, all ten digits to length 4 (6), plus 20..300-digit ladder literals, read by both the library parser and the query path and compared with an independent reader.",
+ "C07": ("exploration", E1 + ": the literal grammar up to length 7 plus a size ladder vs an own decimal reader",
+         "Every literal of the grammar up to length 7 over a reduced digit alphabet ({0,1,9}; thorough {0,1,5,9}), all ten digits to length 4 (thorough 5), plus 20..300-digit ladder literals, read by both the library parser and the query path and compared with an independent reader.",
          "Exponent magnitudes > 999 are not judged (exact values with thousands of digits; C11 bounds exponents to 3 digits).", "3 C07"),
  "C08": ("exploration", E1 + ": value grid x every display spec, printed text re-read and judged",
          "Every value of a rational grid (small p/q, p/q*10^k for k in -40..40, neighbours of powers of ten) under every limit x exponent_limit spec (quick 42, thorough 300), mark on and off; the printed text is re-read by an own reader and must be the truncation toward zero with mark iff something non-zero was cut.",
